@@ -1,179 +1,264 @@
-import PdfModel.Model.XrefTableC01
+import PdfModel.Model.XrefTable
+import PdfModel.Model.XrefStreamRead
 import PdfModel.Lemmas.TotalParser
+import PdfModel.Lemmas.TotalXrefStream
 import PdfModel.Lemmas.Xref
 
 /-!
-  Totality of the cross-reference table reader and of the dispatcher `read_xref_and_trailer_at`
-  (`Model/XrefTable`) on arbitrary buffers: `Ok` or `Err`, the cursor inside the buffer, every loop within
-  `buf.size + 1` rounds whatever entry count the file claims, and only `Free` / `Raw` entries come out (which is
-  what `Props/C02.merge_total` asks of a section).
+  Totality of the cross-reference section readers on arbitrary buffers (C01), over the ONE model of them,
+  `Model/XrefTable` (the C02 package's, with which `Props/C02` reads conforming sections back) and its stream
+  branch `Model/XrefStreamRead`: `Ok` or `Err` — never `panic`, never `oof` with the default fuels — the cursor inside
+  the buffer, and only `Free` / `Raw` / `Stream` entries come out (what `Props/C02.merge_total` asks of a section).
+
+  Resources: every round of the entry loop consumes three lexemes, every round of the subsection loop two, so a
+  subsection header that claims 4294967295 entries ends in `Err` after at most `len / 3` rounds
+  (`entryLoop_total`: the entries returned fit into the bytes consumed).
 -/
 
 namespace PdfLex
 
-variable {R : Type}
-
 /-- every entry is one a section reader can produce (`Free`, `Raw`, `Stream`) -/
 def SubsOk (secs : List Xref.Sub) : Prop := ∀ s ∈ secs, ∀ e ∈ s.entries, Xref.isEntry e = true
 
-theorem nextU32_good (buf : Buf) (pos : Nat) (h : pos ≤ buf.size) : Good buf pos (nextU32 buf pos) := by
-  unfold nextU32
+theorem mem_pairsFrom (i : Nat) (es : List Xref.XRef) : ∀ p ∈ Xref.pairsFrom i es, p.2 ∈ es := by
+  induction es generalizing i with
+  | nil => intro p hp; simp [Xref.pairsFrom] at hp
+  | cons e es ih =>
+    intro p hp
+    simp only [Xref.pairsFrom, List.mem_cons] at hp
+    rcases hp with rfl | hp
+    · simp
+    · exact List.mem_cons_of_mem _ (ih (i + 1) p hp)
+
+theorem subsOk_pairsOK (secs : List Xref.Sub) (h : SubsOk secs) : Xref.pairsOK (Xref.secPairs secs) := by
+  intro p hp
+  simp only [Xref.secPairs, List.mem_flatMap] at hp
+  obtain ⟨s, hs, hps⟩ := hp
+  exact h s hs p.2 (mem_pairsFrom s.first s.entries p hps)
+
+end PdfLex
+
+namespace XrefTable
+open PdfLex Xref
+
+variable {R : Type}
+
+theorem nextAsU32_good (buf : Buf) (pos : Nat) (h : pos ≤ buf.size) : Good buf pos (nextAsU32 buf pos) := by
+  unfold nextAsU32
   rcases next_spec buf pos h with he | ⟨w, hw, a1, a2, a3⟩
-  · left; simp [he]
-  · rw [hw]; simp only [Out.bind_ok]
+  · left; simp only [he]
+  · simp only [hw]
     split
     · exact good_ok _ (by omega) a3
     · exact good_err _ _
 
-/-- the entry loop: every round consumes three lexemes, so `buf.size - pos + 1` units of fuel are never used up,
-    however many entries the subsection header claims -/
-theorem xrefEntryLoop_spec (buf : Buf) (fuel left pos : Nat) (acc : List Xref.XRef) (h : pos ≤ buf.size)
-    (hf : buf.size - pos < fuel) (hacc : ∀ e ∈ acc, Xref.isEntry e = true) :
-    xrefEntryLoop buf fuel left pos acc = .err ∨
-    ∃ es p, xrefEntryLoop buf fuel left pos acc = .ok (es, p) ∧ pos ≤ p ∧ p ≤ buf.size ∧
-      (∀ e ∈ es, Xref.isEntry e = true) := by
-  induction fuel generalizing left pos acc with
-  | zero => omega
-  | succ fuel ih =>
-    cases left with
-    | zero =>
-      right; unfold xrefEntryLoop
-      exact ⟨_, _, rfl, Nat.le_refl _, h, fun e he => hacc e (by simpa using he)⟩
-    | succ left =>
-      unfold xrefEntryLoop
-      rcases next_spec buf pos h with he | ⟨w1, hw1, a1, a2, a3⟩
-      · left; simp [he]
-      · rw [hw1]; simp only [Out.bind_ok]
-        split
-        · left; rfl
-        · rcases next_spec buf w1.2 a3 with he | ⟨w2, hw2, b1, b2, b3⟩
-          · left; simp [he]
-          · rw [hw2]; simp only [Out.bind_ok]
-            rcases next_spec buf w2.2 b3 with he | ⟨w3, hw3, c1, c2, c3⟩
-            · left; simp [he]
-            · rw [hw3]; simp only [Out.bind_ok]
-              split
-              · split
-                · rename_i a g _ _
-                  rcases ih left w3.2 (.free a g :: acc) c3 (by omega)
-                    (fun e he => by
-                      rcases List.mem_cons.1 he with rfl | he
-                      · rfl
-                      · exact hacc e he) with he | ⟨es, p, hp, p1, p2, p3⟩
-                  · left; exact he
-                  · right; exact ⟨es, p, hp, by omega, p2, p3⟩
-                · left; rfl
-              · split
-                · split
-                  · rename_i a g _ _
-                    rcases ih left w3.2 (.raw a g :: acc) c3 (by omega)
-                      (fun e he => by
-                        rcases List.mem_cons.1 he with rfl | he
-                        · rfl
-                        · exact hacc e he) with he | ⟨es, p, hp, p1, p2, p3⟩
-                    · left; exact he
-                    · right; exact ⟨es, p, hp, by omega, p2, p3⟩
-                  · left; rfl
-                · left; rfl
+theorem entryOfTokens_cases (a b c : List UInt8) :
+    entryOfTokens a b c = .err ∨ ∃ e, entryOfTokens a b c = .ok e ∧ isEntry e = true := by
+  unfold entryOfTokens
+  split
+  · split
+    · exact Or.inr ⟨_, rfl, rfl⟩
+    · exact Or.inl rfl
+  · split
+    · split
+      · exact Or.inr ⟨_, rfl, rfl⟩
+      · exact Or.inl rfl
+    · exact Or.inl rfl
 
-/-- the subsection loop: every round consumes the two numbers of the subsection header -/
-theorem xrefSectionLoop_spec (buf : Buf) (fuel pos : Nat) (acc : List Xref.Sub) (h : pos ≤ buf.size)
-    (hf : buf.size - pos < fuel) (hacc : SubsOk acc) :
-    xrefSectionLoop buf fuel pos acc = .err ∨
-    ∃ secs p, xrefSectionLoop buf fuel pos acc = .ok (secs, p) ∧ pos ≤ p ∧ p ≤ buf.size ∧ SubsOk secs := by
-  induction fuel generalizing pos acc with
-  | zero => omega
-  | succ fuel ih =>
-    unfold xrefSectionLoop
-    obtain ⟨pk, hpk, _, _, _⟩ := peek_spec buf pos h
-    rw [hpk]; simp only [Out.bind_ok]
+/-- one entry: `Err`, or a `Free` / `Raw` entry behind at least three consumed bytes -/
+theorem readEntry_total (buf : Buf) (pos : Nat) (h : pos ≤ buf.size) :
+    readEntry buf pos = .err ∨
+    ∃ e q, readEntry buf pos = .ok (e, q) ∧ pos + 3 ≤ q ∧ q ≤ buf.size ∧ isEntry e = true := by
+  unfold readEntry
+  rcases next_spec buf pos h with he | ⟨w1, hw1, a1, a2, a3⟩
+  · left; simp only [he]
+  · simp only [hw1]
     split
-    · right
-      refine ⟨_, _, rfl, Nat.le_refl _, h, fun s hs => hacc s (by simpa using hs)⟩
-    · rcases nextU32_good buf pos h with he | ⟨startId, p1, hp1, a1, a2⟩
-      · left; simp [he]
-      · rw [hp1]; simp only [Out.bind_ok]
-        rcases nextU32_good buf p1 a2 with he | ⟨numIds, p2, hp2, b1, b2⟩
-        · left; simp [he]
-        · rw [hp2]; simp only [Out.bind_ok]
-          rcases xrefEntryLoop_spec buf (buf.size + 1) numIds p2 [] b2 (by omega) (fun e he => by cases he)
-            with he | ⟨es, p3, hp3, c1, c2, c3⟩
-          · left; simp [he]
-          · rw [hp3]; simp only [Out.bind_ok]
-            rcases ih p3 (⟨startId, es⟩ :: acc) c2 (by omega)
-              (fun s hs => by
-                rcases List.mem_cons.1 hs with rfl | hs
-                · exact c3
-                · exact hacc s hs) with he | ⟨secs, p, hp, q1, q2, q3⟩
-            · left; exact he
-            · right; exact ⟨secs, p, hp, by omega, q2, q3⟩
+    · left; rfl
+    · rcases next_spec buf w1.2 a3 with he | ⟨w2, hw2, b1, b2, b3⟩
+      · left; simp only [he]
+      · simp only [hw2]
+        rcases next_spec buf w2.2 b3 with he | ⟨w3, hw3, c1, c2, c3⟩
+        · left; simp only [he]
+        · simp only [hw3]
+          rcases entryOfTokens_cases (slice buf w1.1 w1.2) (slice buf w2.1 w2.2) (slice buf w3.1 w3.2)
+            with he | ⟨e, hE, hi⟩
+          · left; simp only [he]
+          · right; simp only [hE]; exact ⟨e, w3.2, rfl, by omega, c3, hi⟩
+
+/-- the entry loop, whatever count `num_ids` the header claims: `Err`, or entries that fit three-to-one into
+    the bytes consumed — so at most `len / 3` rounds ever run -/
+theorem entryLoop_total (buf : Buf) : ∀ (n pos : Nat) (acc : List XRef), pos ≤ buf.size →
+    (∀ e ∈ acc, isEntry e = true) →
+    entryLoop buf n pos acc = .err ∨
+    ∃ es q, entryLoop buf n pos acc = .ok (es, q) ∧ pos + 3 * n ≤ q ∧ q ≤ buf.size ∧
+      (∀ e ∈ es, isEntry e = true) ∧ es.length = acc.length + n := by
+  intro n
+  induction n with
+  | zero =>
+    intro pos acc h hacc
+    right; exact ⟨acc.reverse, pos, rfl, by omega, h, fun e he => hacc e (by simpa using he), by simp⟩
+  | succ n ih =>
+    intro pos acc h hacc
+    simp only [entryLoop]
+    rcases readEntry_total buf pos h with he | ⟨e, q, hq, q1, q2, q3⟩
+    · left; simp only [he]
+    · simp only [hq]
+      rcases ih q (e :: acc) q2 (fun x hx => by
+          rcases List.mem_cons.1 hx with rfl | hx
+          · exact q3
+          · exact hacc x hx) with he | ⟨es, r, hr, r1, r2, r3, r4⟩
+      · left; exact he
+      · right; exact ⟨es, r, hr, by omega, r2, r3, by simp at r4; omega⟩
+
+theorem readSub_total (buf : Buf) (pos : Nat) (h : pos ≤ buf.size) :
+    readSub buf pos = .err ∨
+    ∃ s q, readSub buf pos = .ok (s, q) ∧ pos + 2 ≤ q ∧ q ≤ buf.size ∧ (∀ e ∈ s.entries, isEntry e = true) ∧
+      3 * s.entries.length ≤ q - pos := by
+  unfold readSub
+  rcases nextAsU32_good buf pos h with he | ⟨first, p1, hp1, a1, a2⟩
+  · left; simp only [he]
+  · simp only [hp1]
+    rcases nextAsU32_good buf p1 a2 with he | ⟨num, p2, hp2, b1, b2⟩
+    · left; simp only [he]
+    · simp only [hp2]
+      rcases entryLoop_total buf num p2 [] b2 (fun e he => by cases he) with he | ⟨es, q, hq, q1, q2, q3, q4⟩
+      · left; simp only [he]
+      · right; simp only [hq]
+        exact ⟨_, q, rfl, by omega, q2, q3, by simp at q4 ⊢; omega⟩
+
+/-- the subsection loop with fuel `buf.size - pos + 1` (`defaultFuel` from any cursor) -/
+theorem tableLoop_total (buf : Buf) : ∀ (fuel pos : Nat) (acc : List Sub), pos ≤ buf.size → buf.size - pos < fuel →
+    SubsOk acc →
+    tableLoop buf fuel pos acc = .err ∨
+    ∃ subs q, tableLoop buf fuel pos acc = .ok (subs, q) ∧ pos ≤ q ∧ q ≤ buf.size ∧ SubsOk subs := by
+  intro fuel
+  induction fuel with
+  | zero => intro pos acc h hf; omega
+  | succ fuel ih =>
+    intro pos acc h hf hacc
+    simp only [tableLoop]
+    obtain ⟨pk, hpk, _, _, _⟩ := peek_spec buf pos h
+    simp only [hpk]
+    split
+    · right; exact ⟨_, _, rfl, Nat.le_refl _, h, fun s hs => hacc s (by simpa using hs)⟩
+    · rcases readSub_total buf pos h with he | ⟨s, q, hq, q1, q2, q3, _⟩
+      · left; simp only [he]
+      · simp only [hq]
+        rcases ih q (s :: acc) q2 (by omega) (fun x hx => by
+            rcases List.mem_cons.1 hx with rfl | hx
+            · exact q3
+            · exact hacc x hx) with he | ⟨subs, r, hr, r1, r2, r3⟩
+        · left; exact he
+        · right; exact ⟨subs, r, hr, by omega, r2, r3⟩
+
+theorem parseTable_total (buf : Buf) (pos : Nat) (h : pos ≤ buf.size) :
+    parseTable buf (defaultFuel buf) pos = .err ∨
+    ∃ subs q, parseTable buf (defaultFuel buf) pos = .ok (subs, q) ∧ pos < q ∧ q ≤ buf.size ∧ SubsOk subs := by
+  unfold parseTable
+  rcases tableLoop_total buf (defaultFuel buf) pos [] h (by unfold defaultFuel; omega) (fun s hs => by cases hs)
+    with he | ⟨subs, q, hq, q1, q2, q3⟩
+  · left; simp only [he]
+  · simp only [hq]
+    rcases nextExpect_spec buf q kwTrailer q2 with he | ⟨p, hp, p1, p2⟩
+    · left; simp only [he]
+    · right; simp only [hp]; exact ⟨subs, p, rfl, by omega, p2, q3⟩
+
+theorem trailerDict_good (env : Env R) (henv : EnvOk env) (buf : Buf) (hs : RealSize buf) (pos : Nat)
+    (h : pos ≤ buf.size) : Good buf pos (trailerDict env buf (PdfLex.defaultFuel buf) pos) := by
+  unfold trailerDict
+  rcases parseWithLexer_good env henv buf hs (PdfLex.defaultFuel buf) pos Flags.dict h
+    (by have := defaultFuel_enough buf pos; omega) with he | ⟨v, p, hp, p1, p2⟩
+  · left; simp only [he]
+  · simp only [hp]
+    cases v <;> first | exact good_ok _ p1 p2 | exact good_err _ _
 
 /-- `parse_xref_table_and_trailer` -/
-theorem parseXrefTable_spec (env : Env R) (henv : EnvOk env) (buf : Buf) (hs : RealSize buf) (pos : Nat)
+theorem parseXrefTableAndTrailer_total (env : Env R) (henv : EnvOk env) (buf : Buf) (hs : RealSize buf) (pos : Nat)
     (h : pos ≤ buf.size) :
-    parseXrefTable env buf pos = .err ∨
-    ∃ secs d p, parseXrefTable env buf pos = .ok ((secs, d), p) ∧ pos < p ∧ p ≤ buf.size ∧ SubsOk secs := by
-  unfold parseXrefTable
-  rcases xrefSectionLoop_spec buf (buf.size + 1) pos [] h (by omega) (fun s hs => by cases hs)
-    with he | ⟨secs, p, hp, a1, a2, a3⟩
-  · left; simp [he]
-  · rw [hp]; simp only [Out.bind_ok]
-    rcases nextExpect_spec buf p kwTrailer a2 with he | ⟨p1, hp1, b1, b2⟩
-    · left; simp [he]
-    · rw [hp1]; simp only [Out.bind_ok]
-      rcases parseWithLexer_good env henv buf hs (defaultFuel buf) p1 Flags.dict b2
-        (by have := defaultFuel_enough buf p1; omega) with he | ⟨v, p2, hp2, c1, c2⟩
-      · left; simp [he]
-      · rw [hp2]; simp only [Out.bind_ok]
-        split
-        · right; exact ⟨_, _, _, rfl, by omega, c2, a3⟩
-        · left; rfl
+    parseXrefTableAndTrailer env buf (defaultFuel buf) (PdfLex.defaultFuel buf) pos = .err ∨
+    ∃ subs d q, parseXrefTableAndTrailer env buf (defaultFuel buf) (PdfLex.defaultFuel buf) pos = .ok ((subs, d), q) ∧
+      pos < q ∧ q ≤ buf.size ∧ SubsOk subs := by
+  unfold parseXrefTableAndTrailer
+  rcases parseTable_total buf pos h with he | ⟨subs, q, hq, q1, q2, q3⟩
+  · left; simp only [he]
+  · simp only [hq]
+    rcases trailerDict_good env henv buf hs q q2 with he | ⟨d, p, hp, p1, p2⟩
+    · left; simp only [he]
+    · right; simp only [hp]; exact ⟨subs, d, p, rfl, by omega, p2, q3⟩
 
-/-- `parse_xref_stream_and_trailer` up to the typed conversion -/
-theorem xrefStreamHead_good (env : Env R) (henv : EnvOk env) (buf : Buf) (hs : RealSize buf) (pos : Nat)
-    (h : pos ≤ buf.size) : Good buf pos (xrefStreamHead env buf pos) := by
-  unfold xrefStreamHead
-  rcases parseIndirectStream_good env henv buf hs (defaultFuel buf) pos h (by unfold defaultFuel; omega)
-    with he | ⟨v, p, hp, a1, a2⟩
-  · left; simp [he]
-  · rw [hp]; simp only [Out.bind_ok]
-    rcases next_spec buf p a2 with he | ⟨w, hw, b1, b2, b3⟩
-    · left; simp [he]
-    · rw [hw]; simp only [Out.bind_ok]
-      split
-      · rcases parseWithLexer_good env henv buf hs (defaultFuel buf) w.2 Flags.dict b3
-          (by have := defaultFuel_enough buf w.2; omega) with he | ⟨v2, p2, hp2, c1, c2⟩
-        · left; simp [he]
-        · rw [hp2]; simp only [Out.bind_ok]
-          split
-          · exact good_ok _ (by omega) c2
-          · exact good_err _ _
-      · split
-        · exact good_ok _ (by omega) b3
-        · exact good_err _ _
+/-- what the dispatcher asks of the stream reader it is handed -/
+def StmOk (stm : Buf → Nat → Out (List Sub × Dict R)) : Prop :=
+  ∀ buf pos, pos ≤ buf.size → RealSize buf →
+    stm buf pos = .err ∨ ∃ subs d, stm buf pos = .ok (subs, d) ∧ SubsOk subs
 
-/-- `read_xref_and_trailer_at`: `Ok` or `Err`; a table's sections hold `Free` / `Raw` entries only -/
-theorem readXrefAt_spec (env : Env R) (henv : EnvOk env) (buf : Buf) (hs : RealSize buf) (pos : Nat)
-    (h : pos ≤ buf.size) :
-    readXrefAt env buf pos = .err ∨
-    ∃ r p, readXrefAt env buf pos = .ok (r, p) ∧ p ≤ buf.size ∧
-      (∀ secs d, r = .table secs d → SubsOk secs) := by
-  unfold readXrefAt
+/-- `read_xref_and_trailer_at`, both branches: `Ok` or `Err`, sections of `Free` / `Raw` / `Stream` entries -/
+theorem readXrefAndTrailerAt_total (env : Env R) (henv : EnvOk env) (stm : Buf → Nat → Out (List Sub × Dict R))
+    (hstm : StmOk stm) (buf : Buf) (hs : RealSize buf) (pos : Nat) (h : pos ≤ buf.size) :
+    readXrefAndTrailerAt env stm buf (defaultFuel buf) (PdfLex.defaultFuel buf) pos = .err ∨
+    ∃ subs d, readXrefAndTrailerAt env stm buf (defaultFuel buf) (PdfLex.defaultFuel buf) pos = .ok (subs, d) ∧
+      SubsOk subs := by
+  unfold readXrefAndTrailerAt
   rcases next_spec buf pos h with he | ⟨w, hw, a1, a2, a3⟩
-  · left; simp [he]
-  · rw [hw]; simp only [Out.bind_ok]
+  · left; simp only [he]
+  · simp only [hw]
     split
-    · rcases parseXrefTable_spec env henv buf hs w.2 a3 with he | ⟨secs, d, p, hp, b1, b2, b3⟩
-      · left; simp [he]
-      · rw [hp]; simp only [Out.bind_ok]
-        right; refine ⟨_, _, rfl, b2, fun s' d' hh => ?_⟩
-        cases hh; exact b3
-    · obtain ⟨b, hb, c1, c2⟩ := back_spec buf w.2 a3
-      rw [hb]; simp only [Out.bind_ok]
-      rcases xrefStreamHead_good env henv buf hs b.1 (by omega) with he | ⟨v, p, hp, d1, d2⟩
-      · left; simp [he]
-      · rw [hp]; simp only [Out.bind_ok]
-        right; refine ⟨_, _, rfl, d2, fun s' d' hh => ?_⟩
-        cases hh
+    · rcases parseXrefTableAndTrailer_total env henv buf hs w.2 a3 with he | ⟨subs, d, q, hq, _, _, q3⟩
+      · left; simp only [he]
+      · right; simp only [hq]; exact ⟨subs, d, rfl, q3⟩
+    · obtain ⟨b, hb, b1, b2⟩ := back_spec buf w.2 a3
+      simp only [hb]
+      exact hstm buf b.1 (by omega) hs
 
-end PdfLex
+/-- `parse_xref_stream_and_trailer`, for a typed reader and a data reader that return `Ok` or `Err`:
+    strict and tolerant (`allowErr`) -/
+theorem parseXrefStreamAndTrailer_total (env : Env R) (henv : EnvOk env) (typed : Dict R → Out XInfo)
+    (htyped : ∀ d, Ret (typed d)) (data : Dict R → StreamInner → Out (List UInt8)) (hdata : ∀ d i, Ret (data d i))
+    (allowErr : Bool) : StmOk (fun b p => parseXrefStreamAndTrailer env typed data allowErr b (PdfLex.defaultFuel b) p) := by
+  intro buf pos h hs
+  simp only []
+  unfold parseXrefStreamAndTrailer
+  rcases parseIndirectStream_good env henv buf hs (PdfLex.defaultFuel buf) pos h (by unfold PdfLex.defaultFuel; omega)
+    with he | ⟨v, p, hp, p1, p2⟩
+  · left; simp only [he]
+  · obtain ⟨id, v⟩ := v
+    cases v with
+    | stream info inner =>
+      simp only [hp]
+      rcases next_spec buf p p2 with he | ⟨w, hw, a1, a2, a3⟩
+      · left; simp only [he]
+      · simp only [hw]
+        have htr : Ret (streamTrailer env buf (PdfLex.defaultFuel buf) w info) := by
+          unfold streamTrailer
+          split
+          · rcases trailerDict_good env henv buf hs w.2 a3 with he | ⟨d, q, hq, _, _⟩
+            · left; simp only [he]
+            · right; simp only [hq]; exact ⟨d, rfl⟩
+          · exact Or.inr ⟨_, rfl⟩
+        rcases htr with he | ⟨tr, htr⟩
+        · left; simp only [he]
+        · simp only [htr]
+          rcases htyped info with he | ⟨xi, hxi⟩
+          · left; simp only [he]
+          · simp only [hxi]
+            rcases hdata info inner with he | ⟨bytes, hb⟩
+            · left; simp only [he]
+            · simp only [hb]
+              split
+              · left; rfl
+              · rcases parseSections_spec xi.w allowErr (pairsOf xi.index) bytes [] (fun s hs => by cases hs)
+                  with he | ⟨secs, hsec, hok⟩
+                · left; simp only [he]
+                · right; simp only [hsec]; exact ⟨secs, tr, rfl, hok⟩
+    | _ => left; simp only [hp]
+
+/-- `read_xref_and_trailer_at` with both section formats concrete -/
+theorem readXrefAt_total (env : Env R) (henv : EnvOk env) (typed : Dict R → Out XInfo) (htyped : ∀ d, Ret (typed d))
+    (data : Dict R → StreamInner → Out (List UInt8)) (hdata : ∀ d i, Ret (data d i)) (allowErr : Bool)
+    (buf : Buf) (hs : RealSize buf) (pos : Nat) (h : pos ≤ buf.size) :
+    readXrefAt env typed data allowErr buf pos = .err ∨
+    ∃ subs d, readXrefAt env typed data allowErr buf pos = .ok (subs, d) ∧ SubsOk subs :=
+  readXrefAndTrailerAt_total env henv _ (parseXrefStreamAndTrailer_total env henv typed htyped data hdata allowErr)
+    buf hs pos h
+
+end XrefTable
